@@ -122,6 +122,16 @@ namespace vt
       run_strings_depth< Root, pegtl::nothing, tc_hid_uw, AA, MR, TE, LFCRLF >( sigma, maxlen );
    }
 
+   // state and action switching (C13): action family 5
+   template< typename Root >
+   void cfgs_st( const std::string& sigma, int maxlen )
+   {
+      run_strings< Root, fam5, tc_full_uw, AA, MR, TE, LFCRLF >( sigma, maxlen );
+      run_strings< Root, fam5, tc_hid, AA, MO, TL, LFCRLF >( sigma, maxlen );
+      run_strings< Root, fam5, tc_full, AN, MR, TE, LFCRLF >( sigma, maxlen );
+      run_strings< Root, fam5, tc_hid_uw, AA, MR, TE, LFCRLF >( sigma, maxlen );
+   }
+
    // all five end-of-line policies, eager and lazy (C06)
    template< typename Root >
    void cfgs_eol( const std::string& sigma, int maxlen )
